@@ -19,22 +19,34 @@ import (
 
 type C16Frames struct {
 	Frames []C09Rcon `json:"frames"`
+	// Fault = k+1 > 0: the connection's k-th byte is where its writes fail once (0: never)
+	Fault int `json:"fault,omitempty"`
 }
 
 func c16CheckFrames(c C16Frames) *pbt.Violation {
-	sink := iox.NewSink(-1)
+	// the connection's writes fail ONCE at a generated offset (a write deadline that expired, then cleared): the packet
+	// being written then is lost, every later packet is written exactly as always
+	sink := &iox.HealingSink{FailAt: c.Fault - 1, Failed: c.Fault <= 0, Short: c.Fault%3 == 1}
 	wc := &mcnet.RCONConn{Conn: iox.RWConn{W: sink}}
 	var want []byte
 	for i, f := range c.Frames {
-		before := len(sink.Buf)
-		if err := wc.WritePacket(f.ID, f.Type, string(f.Payload)); err != nil {
-			return pbt.V("c16.write.error", "writing a packet up to the size limit", "WritePacket #%d (%d payload bytes): %v", i, len(f.Payload), err)
-		}
+		before := len(sink.Data)
+		failedBefore := sink.Failed
+		err := wc.WritePacket(f.ID, f.Type, string(f.Payload))
 		ref := rconFrame(f)
 		want = append(want, ref...)
-		if !bytes.Equal(sink.Buf[before:], ref) {
+		if sink.Failed && !failedBefore {
+			if err == nil {
+				return pbt.V("c16.write.fault-swallowed", "a packet written is read back identically (a failed write is reported)", "WritePacket #%d returned nil although the connection failed after %d bytes", i, c.Fault-1)
+			}
+			continue
+		}
+		if err != nil {
+			return pbt.V("c16.write.error", "writing a packet up to the size limit", "WritePacket #%d (%d payload bytes): %v", i, len(f.Payload), err)
+		}
+		if !bytes.Equal(sink.Data[before:], ref) {
 			return pbt.V("c16.write.layout", "little-endian layout with two terminating zero bytes",
-				"WritePacket(%d,%d,%d bytes) wrote % x, protocol layout % x", f.ID, f.Type, len(f.Payload), clipB(sink.Buf[before:]), clipB(ref))
+				"WritePacket(%d,%d,%d bytes) wrote % x, protocol layout % x (an earlier write on this connection failed: %v)", f.ID, f.Type, len(f.Payload), clipB(sink.Data[before:]), clipB(ref), failedBefore && c.Fault > 0)
 		}
 	}
 	src := iox.NewSrc(want)
@@ -81,6 +93,20 @@ var c16Frames = pbt.Register(pbt.Prop[C16Frames]{
 				}
 			}
 			c.Frames = append(c.Frames, C09Rcon{ID: int32(boundaryI32(t, "id")), Type: int32(boundaryI32(t, "type")), Payload: p})
+		}
+		if rapid.IntRange(0, 3).Draw(t, "faulty") == 0 {
+			total := 0
+			for _, f := range c.Frames {
+				total += 14 + len(f.Payload)
+			}
+			c.Fault = 1 + rapid.IntRange(0, total-1).Draw(t, "fault_at")
+			if rapid.Bool().Draw(t, "fault_at_boundary") { // exactly between two packets: nothing of the failed one is taken
+				k, off := rapid.IntRange(0, len(c.Frames)-1).Draw(t, "fault_frame"), 0
+				for _, f := range c.Frames[:k] {
+					off += 14 + len(f.Payload)
+				}
+				c.Fault = 1 + off
+			}
 		}
 		return c
 	},
